@@ -361,3 +361,41 @@ def _tail_mul(ctx, step):
 @action("tail_rsub_t")
 def _tail_rsub_t(ctx, step):
     return [("T - r", ctx.T(step["arg"]) - ctx.env["r"])]
+
+
+# ------------------------------------------------------------------ C03 actions (indexing)
+def py_index(items):
+    out = []
+    for it in items:
+        k = it["k"]
+        if k == "int":
+            out.append(int(it["a"]))
+        elif k == "sl":
+            f = lambda v: None if v == -99 else int(v)
+            out.append(slice(f(it["a"]), f(it["b"]), f(it["c"])))
+        elif k == "ell":
+            out.append(Ellipsis)
+        elif k == "ten":
+            out.append(torch.tensor(it["t"]["data"], dtype=torch.long).reshape(it["t"]["shape"]))
+        elif k == "list":
+            out.append([int(v) for v in it["t"]["data"]])
+        elif k == "t0":
+            out.append(torch.tensor(int(it["a"]), dtype=torch.long))
+        else:
+            raise KeyError(k)
+    return tuple(out)
+
+
+@action("getitem")
+def _getitem(ctx, step):
+    op = _op(ctx, step)
+    idx = py_index(step["arg"])
+    if len(idx) == 1 and step.get("bare", False):
+        idx = idx[0]
+    return [("op[idx]", op[idx])]
+
+
+@action("diagonal")
+def _diagonal(ctx, step):
+    op = _op(ctx, step)
+    return [("op.diagonal()", op.diagonal()), ("torch.diagonal(op, dim1=-2, dim2=-1)", torch.diagonal(op, dim1=-2, dim2=-1))]
